@@ -12,9 +12,10 @@ cp demo.py "$D/demo.py" 2>/dev/null
 cp NOTES.md "$D/NOTES.md" 2>/dev/null
 [ -s "$D/patch.diff" ] || { echo "EMPTY PATCH"; exit 2; }
 echo "== demo with change"; PYTHONPATH="$WT/src" MPLBACKEND=Agg /venv/bin/python "$WT/demo.py" > "$D/demo_with.log" 2>&1; RC_WITH=$?; tail -2 "$D/demo_with.log"
-git stash -q -- src
+# (git stash is shared between all worktrees of a repository: reverse-apply the patch instead)
+git apply -R "$D/patch.diff"
 echo "== demo without change"; PYTHONPATH="$WT/src" MPLBACKEND=Agg /venv/bin/python "$WT/demo.py" > "$D/demo_without.log" 2>&1; RC_WITHOUT=$?; tail -2 "$D/demo_without.log"
-git stash pop -q
+git apply "$D/patch.diff"
 echo "== tests with change"; TESTS=$($V/tools/repo_tests.sh "$WT" 1); echo "$TESTS"
 cd /repo
 if ! git apply --check "$D/patch.diff" 2>/dev/null; then echo "PATCH DOES NOT APPLY TO /repo HEAD"; APPLY=fail; else APPLY=ok; fi
